@@ -24,7 +24,10 @@ Inductive case :=
            (dst_before : snap) (src_before src_after : snap) (dst_after : snap)
            (merge_failed : bool)
            (follows : list follow)
-| CAlias10 (what : string) (before after : value) (keys : list string).
+| CAlias10 (what : string) (before after : value) (keys : list string)
+| CIndep10 (what : string) (before after : otree).
+    (* the data one of two configs holds around an operation on the other one, after a merge
+       between them (lists at the top level, list children): it must be the same *)
     (* a merge into one setting of the destination: the settings [keys] of the destination, which
        the source does not mention, must hold the same contents afterwards *)
 
@@ -48,6 +51,7 @@ Definition model_agrees (c : case) : bool :=
       | _ => true
       end
   | CAlias10 _ _ _ _ => true
+  | CIndep10 _ _ _ => true
   end.
 
 Definition skipped (c : case) : bool :=
@@ -55,6 +59,7 @@ Definition skipped (c : case) : bool :=
   | CMerge10 h _ srcn db _ _ _ failed _ =>
     negb failed && match merge_root (plain_opts h) (sn_tree db) srcn with OutOfModel => true | _ => false end
   | CAlias10 _ _ _ _ => false
+  | CIndep10 _ _ _ => false
   end.
 
 (* the follow-ups: the side that was not operated on is unchanged (contents and identities) *)
@@ -88,6 +93,7 @@ Definition prop_holds (c : case) : bool :=
                       | None, None => true
                       | _, _ => false
                       end) keys
+  | CIndep10 _ b a => otree_eqb b a
   end.
 
 (* known-finding signature 11: an embedded config keeps its contents and objects but is given
